@@ -51,7 +51,14 @@ def get_at(val, path):
         elif step == "len":
             val = val.len if isinstance(val, Arr) else Top()
         elif step == "elem":
-            val = val.elem if isinstance(val, Arr) else Top()
+            if isinstance(val, Arr):
+                # an element at an unknown position: the summary, or any of the elements known by position
+                e = val.elem
+                for x in (val.cells or {}).values():
+                    e = join_val(e, x)
+                val = e
+            else:
+                val = Top()
         elif isinstance(step, tuple) and step[0] == "c":
             if isinstance(val, Arr):
                 val = val.cells.get(step[1], val.elem)
